@@ -16,9 +16,9 @@ package c19
 
 import (
 	"encoding/json"
+	"errors"
 	"fmt"
 	"math/big"
-	"sort"
 	"strings"
 	"sync/atomic"
 	"testing"
@@ -39,11 +39,6 @@ import (
 
 const ID = "C19"
 
-// signature of the finding "Solution.Export applies the instance permutation instead of its inverse"
-// (wrong order whenever the sorted instance order is not an involution). Only an OPEN entry in
-// known_findings.json suppresses it.
-const sigExportOrder = "gkr-export-noninvolutive-instance-order"
-
 // singleInstanceRejected recognises, narrowly, the compile-time failure of single-instance
 // circuits: with zero sum-check variables the challenge-name list of a sum-check (or of the whole
 // transcript) is empty and std/gkr indexes challengeNames[0] (gkr.go setup / sumcheck.go
@@ -57,85 +52,80 @@ func singleInstanceRejected(t *Topo, err error) bool {
 		(strings.Contains(m, "gkr.setupTranscript") || strings.Contains(m, "gkr.setup\n"))
 }
 
-// ---- protection against a non-terminating solve hint ---------------------------------
+// ---- watchdog around solves ---------------------------------------------------------
 //
-// On the tree this check was written against, the genuine solve hint
-// (constraint/<curve>/gkr.go GkrSolveHint) positions itself in every input wire's dependency list
-// with internal/utils.BinarySearchFunc, which never terminates when the value looked for is larger
-// than the last element (start = mid = end-1 forever). That happens as soon as two input wires have
-// dependencies and a chunk of instances starts after the last dependency of one of them. A spinning
-// hint would wedge the whole run, so the harness predicts the situation with its own model of the
-// chunking and runs the first solve of such a case under a watchdog. The verdict "does not
-// terminate" is only given when the model predicts it AND the solve is still running after
-// hangTimeout (four orders of magnitude above the normal solving time of these circuits).
+// A spinning hint would wedge the whole run (the tree this check was written against had one:
+// internal/utils.BinarySearchFunc, used by the genuine GKR solve hint, looped forever as soon as two
+// input wires had dependencies and an instance chunk started after the last dependency of one of
+// them; fixed since). Every solve therefore runs under a watchdog: a solve of these circuits takes
+// milliseconds; one that is still running after hangTimeout is re-run once, and reported as a
+// violation ("does not terminate") if it exceeds the bound again. The abandoned goroutines keep
+// spinning until the process exits.
 
 const hangTimeout = 60 * time.Second
 
 var (
-	hangConfirmed atomic.Bool // a predicted non-termination was observed in this process
-	hangRefuted   atomic.Bool // a predicted non-termination did not happen (the tree does not have the defect)
+	errHung       = errors.New("HUNG: still running after the watchdog bound, twice")
+	hangConfirmed atomic.Bool // once a solve hung, later ones (shrinking) get a shorter bound and no second chance
 )
 
-// mayNotTerminate models Chunks + BinarySearchFunc on the dependency lists in sorted instance order.
-func mayNotTerminate(t *Topo, order []int) bool {
+// guarded runs f under the watchdog.
+func guarded(f func() error) error {
+	try := func(d time.Duration) (error, bool) {
+		done := make(chan error, 1)
+		go func() { done <- f() }()
+		select {
+		case e := <-done:
+			return e, true
+		case <-time.After(d):
+			return nil, false
+		}
+	}
+	if hangConfirmed.Load() {
+		if e, ok := try(hangTimeout / 6); ok {
+			return e
+		}
+		return errHung
+	}
+	if e, ok := try(hangTimeout); ok {
+		return e
+	}
+	if e, ok := try(hangTimeout); ok {
+		return e
+	}
+	hangConfirmed.Store(true)
+	return errHung
+}
+
+func guardedSolve(sys prog.System, wit witness.Witness, opts ...solver.Option) error {
+	return guarded(func() error {
+		_, e := prog.Solve(sys, wit, opts...)
+		return e
+	})
+}
+
+// twoWireDependencyPattern recognises the dependency shape of the (fixed) non-termination defect
+// described above: a class label showing that the generator keeps reaching these regression inputs.
+func twoWireDependencyPattern(t *Topo, order []int) bool {
 	pos := make([]int, len(order))
 	for s, o := range order {
 		pos[o] = s
 	}
-	deps := map[int][]int{}
+	last := map[int]int{}
+	starts := map[int]bool{}
 	for _, d := range t.Deps {
-		deps[d.InWire] = append(deps[d.InWire], pos[d.InInst])
-	}
-	var wires []int
-	for w := range deps {
-		sort.Ints(deps[w])
-		wires = append(wires, w)
-	}
-	sort.Ints(wires)
-	// chunk starts: 0 and every dependency input instance
-	starts := map[int]bool{0: true}
-	for _, w := range wires {
-		for _, i := range deps[w] {
-			starts[i] = true
-		}
+		last[d.InWire] = max(last[d.InWire], pos[d.InInst])
+		starts[pos[d.InInst]] = true
 	}
 	for s := range starts {
-		for _, w := range wires {
-			lo, hi := 0, len(deps[w])
-			for it := 0; lo != hi; it++ {
-				if it > 64 {
-					return true
-				}
-				mid := (lo + hi) / 2
-				if s >= deps[w][mid] {
-					lo = mid
-				}
-				if s <= deps[w][mid] {
-					hi = mid
-				}
+		for _, l := range last {
+			if s > l {
+				return true
 			}
 		}
 	}
 	return false
 }
-
-// guardedSolve runs prog.Solve under the watchdog. hung=true: still running after hangTimeout
-// (the goroutine is abandoned).
-func guardedSolve(sys prog.System, wit witness.Witness, opts ...solver.Option) (err error, hung bool) {
-	done := make(chan error, 1)
-	go func() {
-		_, e := prog.Solve(sys, wit, opts...)
-		done <- e
-	}()
-	select {
-	case e := <-done:
-		return e, false
-	case <-time.After(hangTimeout):
-		return nil, true
-	}
-}
-
-const sigSolveHang = "gkr-solve-hint-binary-search-nontermination"
 
 func involution(order []int) bool {
 	for i, o := range order {
@@ -288,7 +278,7 @@ func solveDetached(curve string, sys prog.System, w any, info constraint.GkrInfo
 	if err != nil {
 		return rec, fmt.Errorf("harness: witness: %v", err)
 	}
-	_, err = prog.Solve(sys, wit, opts...)
+	err = guardedSolve(sys, wit, opts...)
 	return rec, err
 }
 
@@ -321,16 +311,11 @@ func run(c Case) (out ev.Outcome, harness string) {
 
 	classes := caseClasses(&c, ref, p, order)
 	if !involution(order) {
-		if kf, ok := ev.OpenFinding(ID, sigExportOrder); ok {
-			return ev.Outcome{Known: kf.ID, Discard: true, DiscardWhy: "known finding " + kf.ID}, ""
-		}
+		// regression class of the (fixed) defect "Export applied the instance permutation instead of its inverse"
+		classes = append(classes, "instance-order-not-an-involution")
 	}
-	risky := mayNotTerminate(t, order)
-	if risky {
-		if kf, ok := ev.OpenFinding(ID, sigSolveHang); ok {
-			return ev.Outcome{Known: kf.ID, Discard: true, DiscardWhy: "known finding " + kf.ID}, ""
-		}
-		classes = append(classes, "deps:chunk-start-after-last-dependency-of-a-wire")
+	if twoWireDependencyPattern(t, order) {
+		classes = append(classes, "deps:chunk-starts-after-last-dependency-of-a-wire")
 	}
 
 	// ---------------- honest direction: circuit A -----------------------------
@@ -348,33 +333,23 @@ func run(c Case) (out ev.Outcome, harness string) {
 		if err != nil {
 			return out, "witness A: " + err.Error()
 		}
-		var serr error
-		if risky && !hangRefuted.Load() {
-			hangMsg := fmt.Sprintf("%s the honest Solve does not terminate: the genuine GKR solve hint (constraint/<curve>/gkr.go GkrSolveHint -> internal/utils.BinarySearchFunc) loops forever when an instance chunk starts after the last dependency of an input wire (harness model predicts it; solve still running after %v)", wh, hangTimeout)
-			if hangConfirmed.Load() {
-				return ev.Outcome{Violation: hangMsg + " [observed earlier in this process; not re-executed]"}, ""
-			}
-			var hung bool
-			serr, hung = guardedSolve(sys, wit, hintadv.HashCommitment())
-			if hung {
-				hangConfirmed.Store(true)
-				return ev.Outcome{Violation: hangMsg}, ""
-			}
-			hangRefuted.Store(true)
-		} else {
-			_, serr = prog.Solve(sys, wit, hintadv.HashCommitment())
+		serr := guardedSolve(sys, wit, hintadv.HashCommitment())
+		if errors.Is(serr, errHung) {
+			return ev.Outcome{Violation: fmt.Sprintf("%s the honest Solve does not terminate (%v)", wh, serr)}, ""
 		}
 		if serr != nil {
 			return ev.Outcome{Violation: fmt.Sprintf("%s Solve failed although exported values are asserted equal to the direct evaluation of the same gates: %v", wh, serr)}, ""
 		}
 	}
 	{
-		var err error
-		if pm := ev.Safely(func() {
-			err = test.IsSolved(newCircuit(t, "A", c.HashA, c.ChalA), newAssignment(t, "A", p, t.Vals, nil), p)
-		}); pm != "" {
-			err = fmt.Errorf("%s", pm)
-		}
+		err := guarded(func() (err error) {
+			if pm := ev.Safely(func() {
+				err = test.IsSolved(newCircuit(t, "A", c.HashA, c.ChalA), newAssignment(t, "A", p, t.Vals, nil), p)
+			}); pm != "" {
+				err = fmt.Errorf("%s", pm)
+			}
+			return err
+		})
 		if err != nil {
 			return ev.Outcome{Violation: fmt.Sprintf("%s honest A test engine hash=%s chal=%s: IsSolved failed: %v", where, c.HashA, c.ChalA, err)}, ""
 		}
@@ -397,7 +372,7 @@ func run(c Case) (out ev.Outcome, harness string) {
 	if err != nil {
 		return out, "witness B: " + err.Error()
 	}
-	if _, err := prog.Solve(sysB, witH, hintadv.HashCommitment()); err != nil {
+	if err := guardedSolve(sysB, witH, hintadv.HashCommitment()); err != nil {
 		return ev.Outcome{Violation: fmt.Sprintf("%s honest Solve failed with the reference outputs as public inputs: %v", whB, err)}, ""
 	}
 	// negative control with gnark's own hints: a wrong public output is rejected (trivially, by the equality assertion)
@@ -405,7 +380,7 @@ func run(c Case) (out ev.Outcome, harness string) {
 		bad := claimedOf(ref)
 		addDelta(bad[0][0], big.NewInt(1), p)
 		witBad, _ := prog.Witness(f, newAssignment(t, "B", p, t.Vals, bad))
-		if _, err := prog.Solve(sysB, witBad, hintadv.HashCommitment()); err == nil {
+		if err := guardedSolve(sysB, witBad, hintadv.HashCommitment()); err == nil {
 			return ev.Outcome{Violation: fmt.Sprintf("%s Solve accepted a wrong public output with the genuine hints", whB)}, ""
 		}
 	}
@@ -419,6 +394,9 @@ func run(c Case) (out ev.Outcome, harness string) {
 	*ip = constraint.GkrInfo{}
 
 	recH, err := solveDetached(c.Curve, sysB, newAssignment(t, "B", p, t.Vals, claimedOf(ref)), info, nil, p)
+	if errors.Is(err, errHung) {
+		return ev.Outcome{Violation: fmt.Sprintf("%s honest Solve with the genuine hints passed as overrides does not terminate (%v)", whB, err)}, ""
+	}
 	if err != nil {
 		return out, fmt.Sprintf("%s detached honest solve failed: %v", whB, err)
 	}
@@ -566,6 +544,9 @@ func run(c Case) (out ev.Outcome, harness string) {
 		}
 
 		rec, err := solveDetached(c.Curve, sysB, newAssignment(t, "B", p, vals, claimed), info, adv, p)
+		if errors.Is(err, errHung) {
+			return ev.Outcome{Violation: fmt.Sprintf("%s Solve does not terminate under the altered hint data (%v)", whF, err)}, ""
+		}
 		if rec.solveErr != nil || rec.proveErr != nil || (err != nil && strings.HasPrefix(err.Error(), "harness:")) {
 			if len(recH.proof) == 0 && strings.HasPrefix(fg.Kind, "proof") {
 				classes = append(classes, "forgery:"+fg.Kind+":empty-proof")
